@@ -407,7 +407,7 @@ class Old:
 class Contract:
     FIELDS = ('params', 'closure', 'requires', 'ensures', 'ghost', 'raises', 'modifies', 'loops',
               'assumes', 'props', 'inline', 'native', 'result', 'tier', 'unroll', 'globals',
-              'scope', 'note', 'kind', 'decreases', 'lemmas', 'timeout', 'modular', 'must_raise', 'raises_iff', 'externals', 'callees', 'method_results', 'use', 'opaque_ctors', 'hints', 'pure_ctors', 'pure_callees')
+              'scope', 'note', 'kind', 'decreases', 'lemmas', 'timeout', 'modular', 'must_raise', 'raises_iff', 'externals', 'callees', 'method_results', 'use', 'opaque_ctors', 'hints', 'pure_ctors', 'pure_callees', 'call_requires')
 
     def __init__(self, target, cls, variant=None):
         self.target = target
@@ -444,6 +444,7 @@ class Contract:
         self.opaque_ctors = {}
         self.hints = []
         self.pure_ctors = []
+        self.call_requires = {}      # external dotted name -> lambda over the caller's variables and `args`: proved at every call of that external
         self.pure_callees = {}       # qual -> (spec function, [exceptions]): a callee assumed to be that pure function (used inside comprehensions)
         for k, v in vars(cls).items():
             if k.startswith('_'):
